@@ -46,7 +46,7 @@ fn is_err(r: &CommandResult) -> bool {
     matches!(r, CommandResult::Error(_))
 }
 
-const ALPHA: &[&str] = &["a", "b", "c", " ", "é", "ß", "İ", "日", "😀", "e\u{301}", "A", "Z", "\t", "ab", "-", ".", "/", "//", "0", "1", "\u{a0}", "x", "y", "ǅ", "ǈ", "ǲ", "ΐ", "ﬁ"];
+const ALPHA: &[&str] = &["a", "b", "c", " ", "é", "ß", "İ", "日", "😀", "e\u{301}", "A", "Z", "\t", "ab", "-", ".", "/", "//", "0", "1", "\u{a0}", "x", "y", "ǅ", "ǈ", "ǲ", "ΐ", "ﬁ", "Σ", "ΑΣ", "σ"];
 
 fn text(t: &mut Tape, max: usize) -> String {
     let n = t.len(max);
@@ -409,7 +409,7 @@ fn case_strings(t: &mut Tape, st: &mut Stats) -> Verdict {
             expect!("uppercase", vec![a(&s)], Some(s.chars().flat_map(|c| c.to_uppercase()).collect::<String>()));
         }
         12 => {
-            // per-character lowercase except the context-sensitive final sigma, which the alphabet does not contain
+            // the plain string operation, incl. its context-sensitive final sigma
             expect!("lowercase", vec![a(&s)], Some(s.to_lowercase()));
         }
         _ => {
@@ -437,6 +437,10 @@ struct Num {
 }
 
 fn spell(n: Num, t: &mut Tape) -> String {
+    if n.m == 0 && t.chance(1, 3) {
+        // zero is zero however it is signed or padded
+        return t.pick(&["-0", "-0.0", "0.0", "-0e3", "0", "00"]).to_string();
+    }
     match t.below(4) {
         0 if n.e != 0 => format!("{}e{}", n.m, n.e),
         _ => {
@@ -479,7 +483,14 @@ fn case_numbers(t: &mut Tape, st: &mut Stats) -> Verdict {
     if tiny {
         st.class("operands-of-tiny-magnitude");
     }
+    // one pair in thirty is zero against zero / one / minus one, zero being written with or without a sign
+    let zeroes = t.chance(1, 30);
+    let a = if zeroes { Num { m: 0, e: 0 } } else { a };
+    if zeroes {
+        st.class("zero-against-zero-or-one");
+    }
     let b = match t.weighted(&[3, 3, 1]) {
+        _ if zeroes => Num { m: t.range(-1, 1), e: 0 },
         0 if tiny => Num { m: t.range(-999, 999), e: a.e + t.range(-1, 1) as i32 },
         0 => Num { m: t.range(-1_000_000_000, 1_000_000_000), e: t.range(-3, 3) as i32 },
         1 => {
@@ -751,7 +762,7 @@ pub fn property() -> Property {
                     Tier::Thorough => Plan::Random { cases: 8_000_000, max_len: 20 },
                 },
                 case: case_numbers,
-                min_classes: &[("operands-differ-in-last-digit", 10000), ("non-numeric-operand", 1000), ("operands-of-tiny-magnitude", 10000)],
+                min_classes: &[("operands-differ-in-last-digit", 10000), ("non-numeric-operand", 1000), ("operands-of-tiny-magnitude", 10000), ("zero-against-zero-or-one", 2000)],
             },
             Section {
                 name: "calc",
